@@ -913,7 +913,12 @@ fn header_text(n: usize) -> String {
         // doc comments with multi-byte characters: the formatter's output is not
         // plain ASCII, so byte-level handling of it (chunk boundaries) matters
         if k % 3 == 0 {
-            h.push_str(&format!("/** Größe des Puffers nº{k} — ☃ 日本語 naïve */\n"));
+            // a long run of 3-byte characters whose alignment differs per size, so that
+            // fixed byte offsets (64, 4096, 8192, ...) fall inside a character for some input
+            let pad = "a".repeat(n % 3);
+            h.push_str(&format!(
+                "/** {pad}日本語の文書コメントがここに続きます。日本語の文書コメントがここに続きます。 Größe nº{k} — ☃ naïve */\n"
+            ));
         }
         h.push_str(&format!(
             "struct s{k} {{ int a; char b[{}]; struct s{k}* next; double d; }};\nint f{k}(struct s{k}* p, int x);\n",
@@ -944,12 +949,23 @@ fn prepare_real(n: usize, variant: usize, rustfmt: &str, formatter: &str, config
             args.push("--disable-header-comment".into());
         }
         if let (Some(c), "rustfmt") = (config, fmt) {
-            args.push("--rustfmt-configuration-file".into());
-            args.push(c.into());
+            if !c.starts_with("nonutf8:") {
+                args.push("--rustfmt-configuration-file".into());
+                args.push(c.into());
+            }
         }
         let (mut b, _, _) = bindgen::builder_from_flags(args.into_iter()).unwrap();
         if !rustfmt.is_empty() {
             b = b.with_rustfmt(rustfmt);
+        }
+        if let (Some(c), "rustfmt") = (config, fmt) {
+            if let Some(dir) = c.strip_prefix("nonutf8:") {
+                // library-only: a configuration path that is not valid UTF-8
+                use std::os::unix::ffi::OsStringExt;
+                let mut bytes = dir.as_bytes().to_vec();
+                bytes.extend_from_slice(b"/cfg-\xff\xfe.toml");
+                b = b.rustfmt_configuration_file(Some(std::ffi::OsString::from_vec(bytes).into()));
+            }
         }
         b.generate().expect("prepare: generation failed")
     };
